@@ -30,6 +30,7 @@ type marker struct {
 	typ, pid string
 	ver      int
 	h        *concHist
+	slowType int // Type() yields that often: node code that is slow while a registration is being validated
 }
 
 func (m *marker) Process(ctx context.Context, e *eventlogger.Event) (*eventlogger.Event, error) {
@@ -41,7 +42,12 @@ func (m *marker) Process(ctx context.Context, e *eventlogger.Event) (*eventlogge
 	return e, nil
 }
 func (m *marker) Reopen() error              { return nil }
-func (m *marker) Type() eventlogger.NodeType { return eventlogger.NodeTypeFilter }
+func (m *marker) Type() eventlogger.NodeType {
+	for i := 0; i < m.slowType; i++ {
+		runtime.Gosched()
+	}
+	return eventlogger.NodeTypeFilter
+}
 
 type plainNode struct {
 	typ    eventlogger.NodeType
@@ -172,7 +178,15 @@ func (w *concWorld) step(client int, r *rt.Rand, denyPct int) {
 		if r.Bool() {
 			ids = append(ids, rt.Pick(r, []string{"s0", "s3"}))
 		}
-		ids = append(ids, "s1", "s2")
+		if r.Intn(6) == 0 {
+			// a malformed definition (no formatter before the sink / no sink): the call fails and, like every
+			// failed call, takes no effect in the model; no Send may ever be seen by its marker
+			ids = append(ids, rt.Pick(r, []string{"s2", "s1"}))
+			mk.slowType = r.Intn(4)
+		} else {
+			ids = append(ids, "s1", "s2")
+			mk.slowType = r.Intn(8) / 6
+		}
 		deny := r.Intn(100) < denyPct
 		h := &hop{Client: client, Kind: "regpipe", Type: t, Pid: pid, Ver: v, Deny: deny, IDs: ids}
 		h.Call = rt.Tick()
